@@ -313,6 +313,31 @@ def run_one(ch, cfg):
                              "%s; asked again (call %d) under root %s: real %s, reference %s" % (
                                  desc, j + 2, rk, _short(real2), _short(ref2))))
                 break
+    # ---- an element replaced on the live object (what the attestation command does with ui / signer):
+    # the next verdict is about the certificate as it is now
+    if isinstance(real, dict) and rc is not None and not viol and isinstance(stored, dict) \
+            and stored.get("elements") and ch.draw(3, "replace-element") == 1:
+        import copy as _copy
+        from admin.certificate_v1 import HSMCertificateElement
+        doc2 = _copy.deepcopy(stored)
+        e2 = doc2["elements"][ch.draw(len(doc2["elements"]), "replace.which")]
+        how2 = ch.pick(["signature", "message", "re-sign"], "replace.how")
+        try:
+            if how2 == "re-sign":
+                e2["signature"] = Key(scalar(b"repl" + ch.bytes(4, "replace.k"))).sign(
+                    bytes.fromhex(e2["message"])).hex()
+            else:
+                e2[how2] = flip(bytes.fromhex(e2[how2]), ch, "replace").hex()
+            cert.add_element(HSMCertificateElement(e2))
+            real3 = cert.validate_and_get_values(HSMCertificateRoot(root_hex))
+            rc3 = REF.load(doc2)
+            ref3 = REF.validate(rc3, bytes.fromhex(root_hex)) if rc3 is not None else None
+            if ref3 is not None and real3 != ref3:
+                viol.append(("history/element-replaced",
+                             "%s; element %s replaced (%s) on the same object: real %s, reference %s" % (
+                                 desc, e2["name"], how2, _short(real3), _short(ref3))))
+        except ValueError:
+            pass
     if (real is None) != (ref is None):
         viol.append(("load/disagreement:%s" % kind.split(":")[0], desc))
     elif real is not None and real != ref:
